@@ -1,5 +1,6 @@
 //@ unit base64dec
 //@ props C14
+//@ rlimit 60
 //@ source src/decoder.rs
 #![feature(allocator_api)]
 #![allow(unused_imports, dead_code, unused_variables, unused_mut)]
@@ -12,6 +13,8 @@ verus! {
 pub open spec fn dec_val(c: u8) -> u8 {
     if 65 <= c <= 90 { (c - 65) as u8 } else if 97 <= c <= 122 { (c - 71) as u8 } else if 48 <= c <= 57 { (c + 4) as u8 } else if c == 43 { 62u8 } else if c == 47 { 63u8 } else { 0u8 }
 }
+pub open spec fn is_b64_char(c: u8) -> bool { (65 <= c <= 90) || (97 <= c <= 122) || (48 <= c <= 57) || c == 43 || c == 47 || c == 61 }
+pub open spec fn all_b64(t: Seq<u8>) -> bool { forall|i: int| 0 <= i < t.len() ==> is_b64_char(#[trigger] t[i]) }
 pub open spec fn q_size(q: Seq<u8>) -> int { if q[2] == 61u8 { 1 } else if q[3] == 61u8 { 2 } else { 3 } }
 pub open spec fn q_bytes(q: Seq<u8>) -> Seq<u8> {
     let o0 = dec_val(q[0]); let o1 = dec_val(q[1]); let o2 = dec_val(q[2]); let o3 = dec_val(q[3]);
@@ -44,6 +47,17 @@ proof fn lemma_dec_text_split(t: Seq<u8>, k: int)
         assert(t4.skip(k - 4) =~= t.skip(k));
         assert(dec4(t.subrange(0, 4)) + (dec_text(t4.subrange(0, k - 4)) + dec_text(t4.skip(k - 4)))
             =~= (dec4(t.subrange(0, 4)) + dec_text(t4.subrange(0, k - 4))) + dec_text(t4.skip(k - 4)));
+    }
+}
+
+proof fn lemma_all_b64_suffix(t: Seq<u8>, k: int)
+    requires 0 <= k <= t.len(),
+    ensures all_b64(t) ==> all_b64(t.skip(k)),
+{
+    if all_b64(t) {
+        assert forall|i: int| 0 <= i < t.skip(k).len() implies is_b64_char(#[trigger] t.skip(k)[i]) by {
+            assert(t.skip(k)[i] == t[i + k]);
+        }
     }
 }
 
@@ -146,9 +160,10 @@ impl Base64Decoder<AnyReader> {
     //@+             // and only whole quanta are ever consumed
     //@+             &&& (old(self).text().len() - final(self).text().len()) % 4 == 0
     //@+             &&& final(self).text().len() <= old(self).text().len()
+    //@+             &&& all_b64(old(self).text()) ==> all_b64(final(self).text())
     //@+         },
-    //@+         // an error is either the reader's, or the text is not a whole number of quanta
-    //@+         Err(_) => !old(self).reliable() || old(self).text().len() % 4 != 0,
+    //@+         // an error is either the reader's, or the text is not a whole number of quanta (tolerated as well: text that is not base64 at all)
+    //@+         Err(_) => !old(self).reliable() || old(self).text().len() % 4 != 0 || !all_b64(old(self).text()),
     //@+     },
     //@+     final(self).reliable() == old(self).reliable(),
     //@subst N9 error value built by an opaque constructor /std::io::Error::other\(Error::ParseError\(\s*"Base64Decoder",\s*"input length is not dividable by 4"\.to_owned\(\),\s*\)\)/length_error()/
@@ -156,6 +171,7 @@ impl Base64Decoder<AnyReader> {
     //@loop 1     self.buffer_offset <= self.buffer_size <= 64,
     //@loop 1     self.total() =~= old(self).total(),
     //@loop 1     self.reliable() == old(self).reliable(),
+    //@loop 1     all_b64(old(self).text()) ==> all_b64(self.text()),
     //@loop 1     old(self).buffer_offset == old(self).buffer_size ==> self.buffer_offset == 0,
     //@loop 1     (old(self).text().len() - self.text().len()) % 4 == 0, self.text().len() <= old(self).text().len(),
     //@loop 1 ensures self.room() ==> self.text().len() == 0,
@@ -168,11 +184,12 @@ impl Base64Decoder<AnyReader> {
     //@loop 2     input@.subrange(0, size as int) =~= loop_start.text().subrange(0, size as int),
     //@loop 2     self.text() =~= loop_start.text().skip(size as int),
     //@loop 2     self.reliable() == old(self).reliable(),
+    //@loop 2     all_b64(old(self).text()) ==> all_b64(self.text()),
     //@loop 2 ensures size < 4 ==> self.text().len() == 0,
     //@loop 2 decreases 4 - size,
     //@proof loop1.start let ghost loop_start = *self;
     //@proof loop2.start let ghost rem_before = self.text(); let ghost input_before = input@;
-    //@proof after:/let\sread_size\s=/ proof { let t = loop_start.text(); assert(rem_before =~= t.skip(size as int)); assert(input@.subrange(0, size as int) =~= input_before.subrange(0, size as int)); assert(input@.subrange(size as int, size as int + read_size as int) =~= rem_before.subrange(0, read_size as int)); assert(rem_before.subrange(0, read_size as int) =~= t.subrange(size as int, size as int + read_size as int)); assert(input@.subrange(0, size as int + read_size as int) =~= input@.subrange(0, size as int) + input@.subrange(size as int, size as int + read_size as int)); assert(t.subrange(0, size as int + read_size as int) =~= t.subrange(0, size as int) + t.subrange(size as int, size as int + read_size as int)); assert(self.text() =~= t.skip(size as int + read_size as int)); }
+    //@proof after:/let\sread_size\s=/ proof { let t = loop_start.text(); assert(rem_before =~= t.skip(size as int)); assert(input@.subrange(0, size as int) =~= input_before.subrange(0, size as int)); assert(input@.subrange(size as int, size as int + read_size as int) =~= rem_before.subrange(0, read_size as int)); assert(rem_before.subrange(0, read_size as int) =~= t.subrange(size as int, size as int + read_size as int)); assert(input@.subrange(0, size as int + read_size as int) =~= input@.subrange(0, size as int) + input@.subrange(size as int, size as int + read_size as int)); assert(t.subrange(0, size as int + read_size as int) =~= t.subrange(0, size as int) + t.subrange(size as int, size as int + read_size as int)); assert(self.text() =~= t.skip(size as int + read_size as int)); lemma_all_b64_suffix(rem_before, read_size as int); }
     //@proof after:/self\.buffer_size\s\+=\sout_size/ proof { let t = loop_start.text(); assert(input@ =~= t.subrange(0, 4)); assert(dec_text(t) == dec4(t.subrange(0, 4)) + dec_text(t.skip(4))); assert(self.buffer@.subrange(0, loop_start.buffer_size as int) =~= loop_start.buffer@.subrange(0, loop_start.buffer_size as int)); assert(self.pending() =~= loop_start.pending() + dec4(input@)); assert(self.total() =~= loop_start.total()); }
     //@proof before:/if\ssize\s==\s0/ proof { if size == 0 { assert(self.text() =~= loop_start.text()); } }
 }
@@ -193,11 +210,12 @@ impl Base64Decoder<AnyReader> {
     //@+             &&& n < old(out)@.len() ==> (final(self).total().len() == 0 && final(self).text().len() == 0)
     //@+             &&& (old(self).text().len() - final(self).text().len()) % 4 == 0
     //@+         },
-    //@+         Err(_) => !old(self).reliable() || old(self).text().len() % 4 != 0,
+    //@+         Err(_) => !old(self).reliable() || old(self).text().len() % 4 != 0 || !all_b64(old(self).text()),
     //@+     },
     //@+     final(self).reliable() == old(self).reliable(),
     //@loop 1 invariant
     //@loop 1     self.reliable() == old(self).reliable(),
+    //@loop 1     all_b64(old(self).text()) ==> all_b64(self.text()),
     //@loop 1     out_offset <= out@.len(), out@.len() == old(out)@.len(),
     //@loop 1     self.buffer_offset <= self.buffer_size <= 64,
     //@loop 1     out_offset <= old(self).total().len(),
